@@ -694,6 +694,13 @@ func wideObjects() []*rj.Value {
 	return objectsOver([]string{"x", "y", "z"}, parseAll([]string{`null`, `1`, `{"q":null}`}))
 }
 
+// pointerLookalikeObjects: all objects over four names that look like JSON Pointer escapes of each
+// other ("a/b" / "a~1b", "m~n" / "m~0n") with values absent / 1 / null (merge functions must treat
+// names literally).
+func pointerLookalikeObjects() []*rj.Value {
+	return objectsOver([]string{"a/b", "a~1b", "m~n", "m~0n"}, parseAll([]string{`1`, `null`}))
+}
+
 // ---- C07: MergeMergePatches composes ----
 
 func runCompose(ctx *core.Ctx, id string, legacy bool, docs, p1s, p2s []*rj.Value) {
